@@ -163,6 +163,12 @@ func HTTPSParams(h dns.HTTPS) []dnsmessage.SVCParam {
 // Packet builds the DoH response for a query with dnsmessage (independent of
 // the package under test). answers may be nil.
 func Packet(q Query, rcode int, ans []AnsRec) ([]byte, error) {
+	return PacketAdd(q, rcode, ans, nil)
+}
+
+// PacketAdd is Packet with records for the additional section as well (a server may
+// volunteer addresses and HTTPS records there, RFC 9460 section 4.2).
+func PacketAdd(q Query, rcode int, ans, add []AnsRec) ([]byte, error) {
 	h := dnsmessage.Header{Response: true, RecursionDesired: true, RecursionAvailable: true, RCode: dnsmessage.RCode(rcode & 0xf)}
 	b := dnsmessage.NewBuilder(nil, h)
 	b.EnableCompression()
@@ -179,48 +185,56 @@ func Packet(q Query, rcode int, ans []AnsRec) ([]byte, error) {
 	if err := b.StartAnswers(); err != nil {
 		return nil, err
 	}
-	for _, a := range ans {
+	emit := func(a AnsRec) error {
 		on, err := xname(a.Owner)
 		if err != nil {
-			return nil, err
+			return err
 		}
 		hdr := dnsmessage.ResourceHeader{Name: on, Class: dnsmessage.ClassINET, TTL: a.Rec.TTL}
 		switch a.Type {
 		case 1:
 			var v [4]byte
 			copy(v[:], a.Rec.IP)
-			err = b.AResource(hdr, dnsmessage.AResource{A: v})
+			return b.AResource(hdr, dnsmessage.AResource{A: v})
 		case 28:
 			var v [16]byte
 			copy(v[:], a.Rec.IP)
-			err = b.AAAAResource(hdr, dnsmessage.AAAAResource{AAAA: v})
+			return b.AAAAResource(hdr, dnsmessage.AAAAResource{AAAA: v})
 		case 5:
 			cn, e := xname(a.Rec.CNAME)
 			if e != nil {
-				return nil, e
+				return e
 			}
-			err = b.CNAMEResource(hdr, dnsmessage.CNAMEResource{CNAME: cn})
-		case 64:
+			return b.CNAMEResource(hdr, dnsmessage.CNAMEResource{CNAME: cn})
+		case 64, 65:
 			tn, e := xname(a.Rec.HTTPS.Target)
 			if e != nil {
-				return nil, e
+				return e
 			}
-			err = b.SVCBResource(hdr, dnsmessage.SVCBResource{Priority: a.Rec.HTTPS.Priority, Target: tn, Params: HTTPSParams(a.Rec.HTTPS)})
-		case 65:
-			tn, e := xname(a.Rec.HTTPS.Target)
-			if e != nil {
-				return nil, e
+			sv := dnsmessage.SVCBResource{Priority: a.Rec.HTTPS.Priority, Target: tn, Params: HTTPSParams(a.Rec.HTTPS)}
+			if a.Type == 64 {
+				return b.SVCBResource(hdr, sv)
 			}
-			err = b.HTTPSResource(hdr, dnsmessage.HTTPSResource{SVCBResource: dnsmessage.SVCBResource{Priority: a.Rec.HTTPS.Priority, Target: tn, Params: HTTPSParams(a.Rec.HTTPS)}})
+			return b.HTTPSResource(hdr, dnsmessage.HTTPSResource{SVCBResource: sv})
 		}
-		if err != nil {
+		return nil
+	}
+	for _, a := range ans {
+		if err := emit(a); err != nil {
+			return nil, err
+		}
+	}
+	if rcode > 15 || len(add) > 0 {
+		if err := b.StartAdditionals(); err != nil {
+			return nil, err
+		}
+	}
+	for _, a := range add {
+		if err := emit(a); err != nil {
 			return nil, err
 		}
 	}
 	if rcode > 15 {
-		if err := b.StartAdditionals(); err != nil {
-			return nil, err
-		}
 		var rh dnsmessage.ResourceHeader
 		if err := rh.SetEDNS0(1232, dnsmessage.RCode(rcode), false); err != nil {
 			return nil, err
